@@ -149,7 +149,13 @@ def _check_match(case):
     arr = _A([keys]) if orient == 'row' else _A([[k] for k in keys])
     got = _val(_F()['MATCH'](val, arr, mt))
     want = spec_match(val, keys, mt)
-    return None if _same(got, want) else 'MATCH(%r, %r, %r) = %r, expected %r' % (val, keys, mt, got, want)
+    if not _same(got, want):
+        return 'MATCH(%r, %r, %r) = %r, expected %r' % (val, keys, mt, got, want)
+    if mt == 1:             # match_type left out: 1 is the default
+        got = _val(_F()['MATCH'](val, arr))
+        if not _same(got, want):
+            return 'MATCH(%r, %r) = %r, expected %r (match_type defaults to 1)' % (val, keys, got, want)
+    return None
 
 
 def _check_index(case):
@@ -182,7 +188,13 @@ def _check_lookup(case):
         got = _val(F['LOOKUP'](val, _A([keys]), _A([res])))
     if want is sh.EMPTY:
         want = 0
-    return None if _same(got, want) else '%s(%r, %r, %r, %r) = %r, expected %r' % (kind, val, table, idx, approx, got, want)
+    if not _same(got, want):
+        return '%s(%r, %r, %r, %r) = %r, expected %r' % (kind, val, table, idx, approx, got, want)
+    if kind in ('VLOOKUP', 'HLOOKUP') and approx is True:          # range_lookup left out: TRUE is the default
+        got = _val(F[kind](val, _A(table), idx))
+        if not _same(got, want):
+            return '%s(%r, %r, %r) = %r, expected %r (range_lookup defaults to TRUE)' % (kind, val, table, idx, got, want)
+    return None
 
 
 def _check_crit(case, **flags):
